@@ -1,4 +1,5 @@
 import PkgProofs.Lemmas.PlatFamilies
+import PkgProofs.Lemmas.PlatNodup
 import PkgProofs.Lemmas.ElfBytes
 /-!
 # C16 — platform tag sequences match the platform's real compatibility range; the ELF / libc probes decode what is encoded
@@ -185,6 +186,143 @@ theorem ios_within_range (v : Nat × Nat) (ma t : Str) (ht : t ∈ iosSpec v ma)
     ∃ A k, t = iosTag A k (ma.map fun c => if c = 45 then 95 else c) ∧ 12 ≤ A ∧ (A < v.1 ∨ (A = v.1 ∧ k ≤ v.2)) := by
   obtain ⟨h12, A, k, rfl, hc⟩ := mem_iosSpec.mp ht
   refine ⟨A, k, rfl, ?_, ?_⟩ <;> rcases hc with ⟨rfl, hk⟩ | ⟨h1, h2, _⟩ <;> first | omega | (right; exact ⟨rfl, hk⟩) | (left; exact h2)
+
+/-! ### 5. A newer system offers a superset (same architecture list, same version regime) -/
+
+theorem mem_manylinuxSpec {G : Nat × Nat} {archs : List Str} {allowed : Nat × Nat → Str → Bool} {last : Nat → Nat}
+    {t : Str} :
+    t ∈ manylinuxSpec G archs allowed true last ↔
+      ∃ a ∈ archs, ∃ v ∈ glibcVersionsDown G (glibcFloor a) last, allowed v a = true ∧
+        (t = pep600Tag v a ∨ ∃ l, legacyName v = some l ∧ t = l ++ us ++ a) := by
+  have hspec : manylinuxSpec G archs allowed true last =
+      archs.flatMap fun a => (glibcVersionsDown G (glibcFloor a) last).flatMap (bodySpec allowed a) := rfl
+  rw [hspec]
+  simp only [List.mem_flatMap]
+  constructor
+  · rintro ⟨a, ha, v, hv, ht⟩
+    refine ⟨a, ha, v, hv, ?_⟩
+    unfold bodySpec at ht
+    by_cases hal : allowed v a = true
+    · refine ⟨hal, ?_⟩
+      simp only [hal, if_true, List.mem_cons] at ht
+      rcases ht with rfl | ht
+      · exact Or.inl rfl
+      · right
+        cases hl : legacyName v with
+        | none => simp [hl] at ht
+        | some l => simp only [hl, List.mem_singleton] at ht; exact ⟨l, rfl, ht⟩
+    · simp [hal] at ht
+  · rintro ⟨a, ha, v, hv, hal, ht⟩
+    refine ⟨a, ha, v, hv, ?_⟩
+    unfold bodySpec
+    simp only [hal, if_true, List.mem_cons]
+    rcases ht with rfl | ⟨l, hl, rfl⟩
+    · exact Or.inl rfl
+    · right; simp [hl]
+
+/-- manylinux: a newer glibc of the same major series offers every tag the older one offers
+    (same architecture list, same policy, compatible ABI) -/
+theorem manylinux_newer_superset (G G' : Nat × Nat) (archs : List Str) (allowed : Nat × Nat → Str → Bool)
+    (last : Nat → Nat) (h1 : G.1 = G'.1) (h2 : G.2 ≤ G'.2) :
+    ∀ t ∈ manylinuxSpec G archs allowed true last, t ∈ manylinuxSpec G' archs allowed true last := by
+  intro t ht
+  rw [mem_manylinuxSpec] at ht ⊢
+  obtain ⟨a, ha, v, hv, hr⟩ := ht
+  refine ⟨a, ha, v, ?_, hr⟩
+  rw [mem_glibcVersionsDown] at hv ⊢
+  obtain ⟨⟨hv1, hv2⟩, hv3, hv4⟩ := hv
+  refine ⟨⟨hv1, by omega⟩, hv3, ?_⟩
+  by_cases h : v.1 = G.1
+  · have h' : v.1 = G'.1 := by omega
+    simp only [h, if_true] at hv4
+    simp only [h', if_true]; omega
+  · have h' : ¬ v.1 = G'.1 := by omega
+    simpa [h, h'] using hv4
+
+theorem mem_musllinuxSpec {V : Nat × Nat} {archs : List Str} {t : Str} :
+    t ∈ musllinuxSpec V archs ↔ ∃ a ∈ archs, ∃ k, k ≤ V.2 ∧ t = sMusllinux_ ++ dec V.1 ++ us ++ dec k ++ us ++ a := by
+  simp only [musllinuxSpec, List.mem_flatMap, List.mem_map, mem_descending]
+  constructor
+  · rintro ⟨a, ha, k, hk, rfl⟩; exact ⟨a, ha, k, hk.2, rfl⟩
+  · rintro ⟨a, ha, k, hk, rfl⟩; exact ⟨a, ha, k, ⟨Nat.zero_le _, hk⟩, rfl⟩
+
+/-- musllinux: newest first down to `M.0`; a newer musl of the same major offers a superset; nothing newer than running -/
+theorem musl_newer_superset (M m m' : Nat) (archs : List Str) (h : m ≤ m') :
+    ∀ t ∈ musllinuxSpec (M, m) archs, t ∈ musllinuxSpec (M, m') archs := by
+  intro t ht
+  rw [mem_musllinuxSpec] at ht ⊢
+  obtain ⟨a, ha, k, hk, rfl⟩ := ht
+  exact ⟨a, ha, k, by simp only at hk ⊢; omega, rfl⟩
+
+theorem mem_macSpec_10 {m : Nat} {arch t : Str} :
+    t ∈ macSpec (10, m) arch ↔ ∃ k, k ≤ m ∧ ∃ f ∈ macFormatsSpec (10, k) arch, t = macTag 10 k f := by
+  simp only [macSpec, if_true, List.mem_flatMap, List.mem_map, mem_descending]
+  constructor
+  · rintro ⟨k, hk, f, hf, rfl⟩; exact ⟨k, hk.2, f, hf, rfl⟩
+  · rintro ⟨k, hk, f, hf, rfl⟩; exact ⟨k, ⟨Nat.zero_le _, hk⟩, f, hf, rfl⟩
+
+/-- macOS 10.x regime: a newer 10.m' offers every tag of 10.m -/
+theorem mac_newer_superset_10 (m m' : Nat) (arch : Str) (h : m ≤ m') :
+    ∀ t ∈ macSpec (10, m) arch, t ∈ macSpec (10, m') arch := by
+  intro t ht
+  rw [mem_macSpec_10] at ht ⊢
+  obtain ⟨k, hk, r⟩ := ht
+  exact ⟨k, by omega, r⟩
+
+/-- macOS 11+ regime: a newer major offers every tag of an older one (minor releases do not matter) -/
+theorem mac_newer_superset_11 (M m M' m' : Nat) (arch : Str) (h11 : 11 ≤ M) (h : M ≤ M') :
+    ∀ t ∈ macSpec (M, m) arch, t ∈ macSpec (M', m') arch := by
+  intro t ht
+  have e1 : ¬ M = 10 := by omega
+  have e2 : ¬ M' = 10 := by omega
+  have g1 : M ≥ 11 := h11
+  have g2 : M' ≥ 11 := by omega
+  simp only [macSpec, e1, e2, g1, g2, if_true, if_false, List.mem_append, List.mem_flatMap, List.mem_map,
+    mem_descending] at ht ⊢
+  rcases ht with ⟨A, hA, f, hf, rfl⟩ | r
+  · exact Or.inl ⟨A, ⟨hA.1, by omega⟩, f, hf, rfl⟩
+  · exact Or.inr r
+
+
+/-- model level: two glibc systems with the same policy module and a compatible interpreter, the newer one of the same
+    major series, same architecture list — the newer system's manylinux tags contain the older one's -/
+theorem manylinux_newer_superset_model (cfg cfg' : LCfg) (archs : List Str) (G G' : Nat × Nat)
+    (hG : getGlibcVersion cfg.confstr cfg.ctypesVersion = ((G.1 : Int), (G.2 : Int)))
+    (hG' : getGlibcVersion cfg'.confstr cfg'.ctypesVersion = ((G'.1 : Int), (G'.2 : Int)))
+    (h2 : 2 ≤ G.1) (h1 : G.1 = G'.1) (hle : G.2 ≤ G'.2)
+    (hpol : policyAllows cfg.policy = policyAllows cfg'.policy)
+    (hok : haveCompatibleAbi cfg' archs = true) :
+    ∀ t ∈ manylinuxTags cfg archs, t ∈ manylinuxTags cfg' archs := by
+  intro t ht
+  rw [manylinux_eq_spec cfg archs G hG h2] at ht
+  rw [manylinux_eq_spec cfg' archs G' hG' (by omega), hok, ← hpol]
+  cases hc : haveCompatibleAbi cfg archs
+  · simp [hc, manylinuxSpec] at ht
+  · rw [hc] at ht
+    exact manylinux_newer_superset G G' archs _ _ h1 hle t ht
+
+/-! ### 6. No duplicates -/
+
+/-- manylinux (model level): no tag is listed twice when the architecture list has no repeats -/
+theorem manylinux_nodup (cfg : LCfg) (archs : List Str) (G : Nat × Nat)
+    (hG : getGlibcVersion cfg.confstr cfg.ctypesVersion = ((G.1 : Int), (G.2 : Int))) (h2 : 2 ≤ G.1)
+    (ha : archs.Nodup) : (manylinuxTags cfg archs).Nodup := by
+  rw [manylinux_eq_spec cfg archs G hG h2]
+  exact PlatL.manylinux_nodup G archs _ _ _ ha
+
+theorem musl_nodup (cfg : LCfg) (archs : List Str) (ha : archs.Nodup) : (musllinuxTags cfg archs).Nodup := by
+  cases h : getMuslVersion cfg with
+  | none => rw [musl_absent_empty cfg archs h]; exact List.nodup_nil
+  | some V => rw [musl_eq_spec cfg archs V h]; exact PlatL.musl_nodup V archs ha
+
+/-- macOS (model level, explicit arguments): the result is a list without duplicates -/
+theorem mac_nodup (verStr cpu compat0 : Str) (is32 : Bool) (a b : Nat) (arch : Str) :
+    ∃ l, macPlatforms verStr cpu compat0 is32 (some (a, b)) (some arch) = .ok l ∧ l.Nodup :=
+  ⟨_, mac_eq_spec verStr cpu compat0 is32 a b arch, PlatL.mac_nodup (a, b) arch⟩
+
+theorem ios_nodup (release probeMa : Str) (a b : Nat) (ma : Str) :
+    ∃ l, iosPlatforms release probeMa (some (a, b)) (some ma) = .ok l ∧ l.Nodup :=
+  ⟨_, ios_eq_spec release probeMa a b ma, PlatL.ios_nodup (a, b) ma⟩
 
 /-! ### 3. ELF header, program headers, PT_INTERP -/
 
